@@ -935,15 +935,22 @@ def _run_manager_from_cli_worker(input_file_path: Path, output_directory: Path) 
 @click.option("--validate-only", default=False, is_flag=True, show_default=False, help="Validate input file and exit.")
 @click.option("-c", "--convert", help="Convert output to specified format. Options supported: 'IDF'.")
 def run_manager_from_cli(input_path, output_directory, validate_only, convert):
+    # click discards the return value of a command in standalone mode: the status has to be raised
+    exit(_run_manager_from_cli(input_path, output_directory, validate_only, convert))
+
+
+def _run_manager_from_cli(input_path, output_directory, validate_only, convert) -> int:
     input_path = Path(input_path).resolve()
 
     if validate_only:
         try:
-            validate_input_file(input_path)
+            if validate_input_file(input_path) != 0:
+                logger.error("Schema validation error. See previous error message for details.")
+                return 1
             logger.info("Valid input file.")
             return 0
         except ValidationError:
-            logger.error("Schema validation error. See previous error message for details.", file=stderr)
+            logger.error("Schema validation error. See previous error message for details.")
             return 1
 
     if convert:
@@ -953,11 +960,11 @@ def run_manager_from_cli(input_path, output_directory, validate_only, convert):
                 print("Output converted to IDF objects.")
                 return 0
             except Exception as e:  # noqa: BLE001
-                logger.warning(f"Conversion to IDF error: {e}", file=stderr)
+                logger.warning(f"Conversion to IDF error: {e}")
                 return 1
 
         else:
-            print(f"Unsupported conversion format type: {format}", file=stderr)
+            print(f"Unsupported conversion format type: {convert}", file=stderr)
             return 1
 
     if output_directory is None:
@@ -970,4 +977,4 @@ def run_manager_from_cli(input_path, output_directory, validate_only, convert):
 
 
 if __name__ == "__main__":
-    exit(run_manager_from_cli())
+    run_manager_from_cli()
